@@ -3,18 +3,18 @@ import Scalibr.Proofs.NpmWriter
 namespace Scalibr.Npm
 
 /-- what happens to one span under an entry-wise rewriting `g` of the sections -/
-def mapSeg (g : Str × Str → Str × Str) : Seg → Seg
+def mapSeg (quote : Str → Str) (g : Str × Str → Str × Str) : Seg → Seg
   | .raw b => .raw b
-  | .val s k v => .val s k (g (k, v)).2
+  | .val s k v b => setSpan quote s k v b (g (k, v)).2
 
-theorem putBack_map (g : Str × Str → Str × Str) (f : File) :
-    putBack f ((secOf .dev f).map g) ((secOf .opt f).map g) ((secOf .prod f).map g) = f.map (mapSeg g) := by
+theorem putBack_map (quote : Str → Str) (g : Str × Str → Str × Str) (f : File) :
+    putBack quote f ((secOf .dev f).map g) ((secOf .opt f).map g) ((secOf .prod f).map g) = f.map (mapSeg quote g) := by
   induction f with
   | nil => rfl
   | cons x f ih =>
     cases x with
     | raw b => simp only [secOf, putBack, List.map, mapSeg, ih]
-    | val s k v =>
+    | val s k v b =>
       cases s <;> simp [secOf, putBack, mapSeg, ih]
 
 /-- the entry-wise rewriting all updates together perform -/
@@ -29,8 +29,8 @@ theorem foldl_map_fusion {α β : Type} (f : β → α → α) (us : List β) (r
     rw [ih, List.map_map]
     rfl
 
-theorem writeFile_eq (f f' : File) (us : List Up) (hwf : WFdoc (docOf f)) (h : writeFile f us = some f') :
-    f' = f.map (mapSeg (substAll us)) := by
+theorem writeFile_eq (quote : Str → Str) (f f' : File) (us : List Up) (hwf : WFdoc (docOf f)) (h : writeFile quote f us = some f') :
+    f' = f.map (mapSeg quote (substAll us)) := by
   unfold writeFile at h
   cases hw : write (docOf f) us with
   | err => simp [hw] at h
@@ -42,17 +42,17 @@ theorem writeFile_eq (f f' : File) (us : List Up) (hwf : WFdoc (docOf f)) (h : w
     simp only [docOf]
     rw [foldl_map_fusion (fun u e => substEntry u e), foldl_map_fusion (fun u e => substEntry u e),
       foldl_map_fusion (fun u e => substEntry u e)]
-    exact putBack_map (substAll us) f
+    exact putBack_map quote (substAll us) f
 
-theorem bytes_map_raw (q : Str → Str) (g : Str × Str → Str × Str) (f : File)
-    (h : ∀ s k v, Seg.val s k v ∈ f → (g (k, v)).2 = v) : bytes q (f.map (mapSeg g)) = bytes q f := by
+theorem map_unchanged (quote : Str → Str) (g : Str × Str → Str × Str) (f : File)
+    (h : ∀ s k v b, Seg.val s k v b ∈ f → (g (k, v)).2 = v) : f.map (mapSeg quote g) = f := by
   induction f with
   | nil => rfl
   | cons x f ih =>
     cases x with
-    | raw b => simp only [List.map, mapSeg, bytes]; rw [ih (fun s k v hm => h s k v (by simp [hm]))]
-    | val s k v =>
-      simp only [List.map, mapSeg, bytes]
-      rw [h s k v (by simp), ih (fun s k v hm => h s k v (by simp [hm]))]
+    | raw b => simp only [List.map, mapSeg]; rw [ih (fun s k v b hm => h s k v b (by simp [hm]))]
+    | val s k v b =>
+      simp only [List.map, mapSeg, setSpan]
+      rw [if_pos (h s k v b (by simp)), ih (fun s k v b hm => h s k v b (by simp [hm]))]
 
 end Scalibr.Npm
